@@ -17,7 +17,13 @@ Snap == [be |-> Ents(be), errs |-> Ents(errs),
          locks |-> Cardinality({k \in Keys : locks[k] # 0}),
          nb |-> nb, met |-> met, now |-> now]
 
-GenInit == Init /\ hist = <<>> /\ done = FALSE
+NoRes == [done |-> FALSE, v |-> "", err |-> ""]
+
+(* The first entry carries the prepared contents the harness has to set up. *)
+GenInit ==
+  /\ Init /\ done = FALSE
+  /\ hist = <<[p |-> "", name |-> "Init", out |-> "", arg |-> 0, pcb |-> "", pca |-> "", end |-> TRUE,
+               res |-> NoRes, cell |-> 0, st |-> Snap]>>
 
 GenStep ==
   /\ ~AllDone
@@ -26,7 +32,7 @@ GenStep ==
                            pcb |-> IF act'.p = "" THEN "" ELSE pc[act'.p],
                            pca |-> IF act'.p = "" THEN "" ELSE pc'[act'.p],
                            end |-> (running' = "none"),
-                           res |-> IF act'.p = "" THEN [done |-> FALSE, v |-> "", err |-> ""] ELSE res'[act'.p],
+                           res |-> IF act'.p = "" THEN NoRes ELSE res'[act'.p],
                            cell |-> IF act'.p = "" THEN 0 ELSE loc'[act'.p].cell,
                            st |-> Snap'])
   /\ UNCHANGED done
